@@ -1,13 +1,16 @@
 package host
 
 import (
+	"context"
 	"fmt"
 	"os"
+	"path/filepath"
 	"strings"
 	"sync"
 	"testing"
 	"time"
 
+	plugin "github.com/hashicorp/go-plugin"
 	"google.golang.org/grpc"
 	"verif/spec"
 	"verif/vp"
@@ -22,6 +25,10 @@ func TestC18(t *testing.T) {
 		wire, mux := p.Proto, false
 		if p.Proto == "grpcmux" {
 			wire, mux = "grpc", true
+		}
+		if p.TestMode != "" {
+			c18TestMode(c, p, wire, mux, e)
+			return
 		}
 		time.Sleep(100 * time.Millisecond)
 		o.GoBefore, o.TotalBefore, _ = pluginGoroutines()
@@ -183,6 +190,84 @@ func TestC18(t *testing.T) {
 		}
 		done()
 	})
+}
+
+// c18TestMode: a test-mode server in this process, cancelled after nobody / one client connected. Runs in a
+// host child of its own (it sets PLUGIN_* variables in the process environment).
+func c18TestMode(c spec.Case, p spec.C18Case, wire string, mux bool, e Em) {
+	var o spec.C18Obs
+	d := caseDir(c.ID, "tm")
+	sd := filepath.Join(d, "sock")
+	os.MkdirAll(sd, 0o755)
+	os.Setenv("PLUGIN_UNIX_SOCKET_DIR", sd)
+	if mux {
+		os.Setenv("PLUGIN_MULTIPLEX_GRPC", "true")
+	}
+	defer os.Unsetenv("PLUGIN_UNIX_SOCKET_DIR")
+	defer os.Unsetenv("PLUGIN_MULTIPLEX_GRPC")
+	time.Sleep(100 * time.Millisecond)
+	o.GoBefore, o.TotalBefore, _ = pluginGoroutines()
+	ctx, cancel := context.WithCancel(context.Background())
+	rch := make(chan *plugin.ReattachConfig, 1)
+	closeCh := make(chan struct{})
+	sc := &plugin.ServeConfig{
+		HandshakeConfig: plugin.HandshakeConfig{ProtocolVersion: 1, MagicCookieKey: spec.CookieKey, MagicCookieValue: spec.CookieValue},
+		Plugins:         vp.Set(wire, 1, []string{"kv"}, vp.NewCore()),
+		Logger:          quietLogger(),
+		Test:            &plugin.ServeTestConfig{Context: ctx, ReattachConfigCh: rch, CloseCh: closeCh},
+	}
+	if wire == "grpc" {
+		sc.GRPCServer = plugin.DefaultGRPCServer
+	}
+	go plugin.Serve(sc)
+	var rc *plugin.ReattachConfig
+	select {
+	case rc = <-rch:
+	case <-time.After(15 * time.Second):
+		o.SetupErr = "test-mode server did not send a reattach config"
+		e.Ret("h", "shutdown", o)
+		return
+	}
+	if p.TestMode == "connect" && !mux { // (reattach is not supported with multiplexing)
+		cfg := baseClientConfig()
+		hostSetFor(cfg, wire)
+		cfg.Reattach = rc
+		cl := plugin.NewClient(cfg)
+		if cp, err := cl.Client(); err != nil {
+			o.StepErrs = append(o.StepErrs, "reattach: "+err.Error())
+		} else if raw, err := cp.Dispense("kv"); err != nil {
+			o.StepErrs = append(o.StepErrs, "dispense: "+err.Error())
+		} else if _, err := raw.(vp.Cli).Do("tag"); err != nil {
+			o.StepErrs = append(o.StepErrs, "call: "+err.Error())
+		}
+		within(20*time.Second, cl.Kill)
+	}
+	t0 := time.Now()
+	cancel()
+	select {
+	case <-closeCh:
+		o.CloseChMs = time.Since(t0).Milliseconds()
+	case <-time.After(40 * time.Second):
+		o.CloseChMs = -1
+	}
+	o.KillReturned, o.Marker = true, o.CloseChMs >= 0
+	for _, f := range listDir(sd) {
+		o.PluginDirLeft = append(o.PluginDirLeft, f)
+	}
+	tg := time.Now()
+	for {
+		n, total, sample := pluginGoroutines()
+		o.GoAfter, o.TotalAfter, o.GoSample = n, total, trunc(sample, 2500)
+		if n <= o.GoBefore || time.Since(tg) > 10*time.Second {
+			break
+		}
+		time.Sleep(100 * time.Millisecond)
+	}
+	o.GoWaitMs = time.Since(tg).Milliseconds()
+	if o.GoAfter <= o.GoBefore {
+		o.GoSample = ""
+	}
+	e.Ret("h", "shutdown", o)
 }
 
 // topLevelPluginSockets lists plugin* socket files directly inside dir (where
